@@ -184,6 +184,9 @@ def gen_cases(rec, rng, tier):
         RPm = pdag.multichar_stack_symbols(rng, RP)
         if RPm is not None:
             yield {'cls': 'multichar_stack_symbols', 'ref': RPm, 'n': n, 'eps': '', 'limit': rng.choice([10, 50])}
+        RPx = pdag.exotic_names(rng, RP)
+        if RPx is not None:
+            yield {'cls': 'exotic_state_names', 'ref': RPx, 'n': n, 'eps': '', 'limit': rng.choice([10, 50])}
 
 
 def run(rec, rng, tier):
